@@ -195,7 +195,12 @@ class SensitiveWordAnonymizer(object):
     def _generate_sensitive_word_regex(cls, sensitive_words):
         """Compile and return regex for the specified list of sensitive words."""
         return re.compile(
-            "({})".format("|".join(re.escape(w) for w in sensitive_words)),
+            "({})".format("|".join(
+                    re.escape(w)
+                    # Longest first, then alphabetical: the alternation must not
+                    # depend on set iteration order (PYTHONHASHSEED)
+                    for w in sorted(sensitive_words, key=lambda w: (-len(w), w))
+                )),
             re.IGNORECASE,
         )
 
